@@ -426,7 +426,9 @@ def plan(ctx):
             for stage, syms in enumerate(sets[s['name']]):
                 for order in itertools.permutations(syms):
                     items.append((spec, 'notify', stage, list(order), b1, {}))
-                items.append((spec, 'restore', stage, None, b1, {}))
+                if not quick or stage == len(sets[s['name']]) - 1:
+                    # quick: restore of the complete chain only (a shorter prefix restored is another chain)
+                    items.append((spec, 'restore', stage, None, b1, {}))
     # family C (thorough): bound 2 where an early injection costs 2 (= every pair of queue-empty deviations:
     # out-of-order delivery, deferral, early chain growth), on the chains marked deep
     if not quick:
@@ -465,7 +467,7 @@ def run(ctx):
               'growing in 1-3 stages. A: every chain x {none + 14 third-party script kinds} x every stage x every '
               'order of the stage\'s notification set + the restore path (whole chain present at subscribe time), '
               'default schedule. B: every chain x every stage x every order + '
-              'restore, every schedule with deviation cost <= 1 (early injection at any iteration boundary, '
+              'restore (quick: restore of the complete chain only), every schedule with deviation cost <= 1 (early injection at any iteration boundary, '
               'non-oldest delivery, deferral of the oldest reply, early chain growth). C (thorough): deep chains, '
               'cost <= 2 with early injection costing 2. Stage s is explored from the default-schedule state of '
               'stage s-1 (all schedules of a stage are checked to end in one canonical state). Non-trivial = an '
